@@ -121,7 +121,7 @@ def check(cx):
                            "transactions dropped from it are treated as committed (dirty reads)" % (nm, sorted(calls_)))
             near = fs.nearest_calls(op_local(c.args[2]))
             calls_ = {x for k, x in near if k == "call"}
-            cx.verdict((K.COORD + "::get_last_committed") in calls_, r1b, "upper-bound-is-last-committed", c.where(),
+            cx.verdict(bool({K.COORD + "::get_last_committed", K.PAGER + "::get_last_committed_transaction"} & calls_), r1b, "upper-bound-is-last-committed", c.where(),
                        "xmax derives from get_last_committed()", "the snapshot upper bound does not come from the last committed id")
         # the two state arguments really are Active and Aborted
         states = []
